@@ -286,6 +286,12 @@ def evaluate(c, cases, cuts, lines, mlines, mcuts, impl, mod, stats, tag):
                 if rm is not None and jm is not None and rm[0][0] == 'OK' and \
                         oracle_diff(cs, rm[0], rm[1 + jm], len(ks[j]))[0] is None:
                     key = None
+                    # ... unless the finding's own stated trigger holds on this cut: the reach volume differs across a cut point.
+                    # With volumes a few ulps apart (the near-MINIMUM_VOLUME values of the structured streams) the effect of the
+                    # lost previous volume is one ulp in the implementation and can round away in the kernel run with OCaml's libm
+                    vol = cs['inputs'][2]
+                    if m == 'InstreamDissolvedNutrientDecay' and any(0 < k < len(vol) and vol[k - 1] != vol[k] for k in ks[j]):
+                        key = KEY_DND
             if d is not None and key is None:
                 # not (confirmed as) the known finding: Sacramento with side != 0 gets the measured envelope
                 d, cls, info = judge_split(CTX['owrun'], cs, ks[j], w, r)
